@@ -9,6 +9,7 @@ transformations
   temp    return <expr>              ->  _r = <expr>; return _r
   unelse  if c: ...return  else: B   ->  if c: ...return ;  B
   alias   n_ = self.n at the top of a method and the loads of self.n replaced (only for attributes the method never stores)
+  hoist   operands of arithmetic named first
   demorgan  not (a and b) <-> (not a) or (not b) on `if` tests
 usage: python3 tools/metamorph.py [N] [seed]"""
 import ast, copy, os, random, sys, multiprocessing as mp
@@ -250,7 +251,111 @@ def t_elif(tree, rng):
     return done
 
 
-TRANSFORMS = {"forcomp": t_forcomp, "fstr": t_fstr, "augassign": t_augassign, "ternary": t_ternary, "elif": t_elif, "swap": t_swap, "rename": t_rename, "temp": t_temp, "unelse": t_unelse, "alias": t_alias, "demorgan": t_demorgan}
+def t_hoist(tree, rng):
+    """operands of arithmetic in a return / assignment are named first:  return a(k) / (f(k) * s ** k)  ->  _h1 = a(k); _h2 = f(k); return _h1 / (_h2 * s ** k)
+    (only operands reached through BinOp / UnaryOp from the statement's value, so nothing conditional is hoisted)"""
+    done = False
+    counter = [0]
+    for f in funcs(tree):
+        for owner in ast.walk(f):
+            if isinstance(owner, (ast.Lambda, ast.ClassDef)):
+                continue
+            for fld in ("body", "orelse", "finalbody"):
+                blk = getattr(owner, fld, None)
+                if not isinstance(blk, list):
+                    continue
+                for st in list(blk):
+                    if not isinstance(st, (ast.Return, ast.Assign, ast.AugAssign)) or st.value is None or not isinstance(st.value, ast.BinOp):
+                        continue
+                    pre = []
+
+                    def walk(e):
+                        for fldname in ("left", "right", "operand"):
+                            c = getattr(e, fldname, None)
+                            if c is None:
+                                continue
+                            if isinstance(c, (ast.BinOp, ast.UnaryOp)):
+                                walk(c)
+                            elif isinstance(c, (ast.Call, ast.Subscript)) and rng.random() < 0.5:
+                                counter[0] += 1
+                                nm = f"_h{counter[0]}"
+                                pre.append(ast.Assign(targets=[ast.Name(id=nm, ctx=ast.Store())], value=c))
+                                setattr(e, fldname, ast.Name(id=nm, ctx=ast.Load()))
+                    walk(st.value)
+                    if pre:
+                        j = next(k for k, x in enumerate(blk) if x is st)
+                        blk[j:j] = pre
+                        done = True
+    return done
+
+
+def t_flipcmp(tree, rng):
+    """a < b -> b > a  (single comparisons whose operands are names, attributes, constants or subscripts: no evaluation-order effect)"""
+    flip = {ast.Lt: ast.Gt, ast.Gt: ast.Lt, ast.LtE: ast.GtE, ast.GtE: ast.LtE, ast.Eq: ast.Eq, ast.NotEq: ast.NotEq}
+    simple = (ast.Name, ast.Attribute, ast.Constant, ast.Subscript)
+    done = False
+    for n in ast.walk(tree):
+        if isinstance(n, ast.Compare) and len(n.ops) == 1 and type(n.ops[0]) in flip and isinstance(n.left, simple) and isinstance(n.comparators[0], simple) and rng.random() < 0.5:
+            n.left, n.comparators[0] = n.comparators[0], n.left
+            n.ops[0] = flip[type(n.ops[0])]()
+            done = True
+    return done
+
+
+def t_commute(tree, rng):
+    """a * b -> b * a for call-free operands (numbers and commutative sympy expressions are what the analysed code multiplies)"""
+    done = False
+    for n in ast.walk(tree):
+        if isinstance(n, ast.BinOp) and isinstance(n.op, ast.Mult) and not any(isinstance(x, (ast.Call, ast.Constant, ast.JoinedStr, ast.List, ast.Tuple)) and not (isinstance(x, ast.Constant) and isinstance(x.value, (int, float)))
+                                                                                  for side in (n.left, n.right) for x in ast.walk(side)) and rng.random() < 0.5:
+            n.left, n.right = n.right, n.left
+            done = True
+    return done
+
+
+def t_reorder(tree, rng):
+    """two adjacent assignments of call-free expressions to different plain names, neither reading the other's target, are exchanged"""
+    done = False
+    for owner in ast.walk(tree):
+        for fld in ("body", "orelse", "finalbody"):
+            blk = getattr(owner, fld, None)
+            if not isinstance(blk, list):
+                continue
+            i = 0
+            while i + 1 < len(blk):
+                a, b = blk[i], blk[i + 1]
+                ok = all(isinstance(x, ast.Assign) and len(x.targets) == 1 and isinstance(x.targets[0], ast.Name) and not any(isinstance(y, (ast.Call, ast.Subscript, ast.Await, ast.NamedExpr)) for y in ast.walk(x.value)) for x in (a, b))
+                if ok and a.targets[0].id != b.targets[0].id:
+                    na, nb = a.targets[0].id, b.targets[0].id
+                    ra = {y.id for y in ast.walk(a.value) if isinstance(y, ast.Name)}
+                    rb = {y.id for y in ast.walk(b.value) if isinstance(y, ast.Name)}
+                    if na not in rb and nb not in ra and rng.random() < 0.5:
+                        blk[i], blk[i + 1] = b, a
+                        done = True
+                        i += 2
+                        continue
+                i += 1
+    return done
+
+
+def t_addelse(tree, rng):
+    """if c: ...return ;  B   ->   if c: ...return  else: B"""
+    done = False
+    for owner in ast.walk(tree):
+        for fld in ("body", "orelse", "finalbody"):
+            blk = getattr(owner, fld, None)
+            if not isinstance(blk, list):
+                continue
+            for j, st in enumerate(blk):
+                if isinstance(st, ast.If) and not st.orelse and st.body and isinstance(st.body[-1], (ast.Return, ast.Raise)) and j + 1 < len(blk) and rng.random() < 0.6:
+                    st.orelse = blk[j + 1:]
+                    del blk[j + 1:]
+                    done = True
+                    break
+    return done
+
+
+TRANSFORMS = {"flipcmp": t_flipcmp, "commute": t_commute, "reorder": t_reorder, "addelse": t_addelse, "hoist": t_hoist, "forcomp": t_forcomp, "fstr": t_fstr, "augassign": t_augassign, "ternary": t_ternary, "elif": t_elif, "swap": t_swap, "rename": t_rename, "temp": t_temp, "unelse": t_unelse, "alias": t_alias, "demorgan": t_demorgan}
 
 
 class _All:
@@ -266,6 +371,7 @@ class _All:
 
 
 EXHAUSTIVE = os.environ.get("METAMORPH_ALL") == "1"
+COMPOSE = int(os.environ.get("METAMORPH_COMPOSE", "1"))
 if EXHAUSTIVE:
     PAIRS = [(rp, kind) for rp in FILES for kind in sorted(TRANSFORMS)]
     N = len(PAIRS)
@@ -282,13 +388,22 @@ def work(i):
     src0 = open(os.path.join("/repo", rp)).read()
     tree = ast.parse(src0)
     try:
-        if not TRANSFORMS[kind](tree, rng):
+        if COMPOSE > 1 and not EXHAUSTIVE:
+            kinds = [rng.choice(sorted(TRANSFORMS)) for _ in range(COMPOSE)]
+            applied = [k for k in kinds if TRANSFORMS[k](tree, rng)]
+            if not applied:
+                return None
+            kind = "+".join(applied)
+        elif not TRANSFORMS[kind](tree, rng):
             return None
         ast.fix_missing_locations(tree)
         out = ast.unparse(tree)
         ast.parse(out)
     except Exception as e:
         return None
+    if os.environ.get("METAMORPH_SHOW") == str(i):
+        import difflib
+        sys.stdout.write("".join(difflib.unified_diff(ast.unparse(ast.parse(src0)).splitlines(True), out.splitlines(True), rp, rp + " (variant)", n=2)))
     variant = Repo("/repo", overrides={rp: out})
     res = []
     for rid, r in check.R.items():
@@ -299,11 +414,14 @@ def work(i):
             continue
         for o in obs:
             if not o.ok and o.full_key() not in BASE:
-                res.append((rp, kind, rid, f"{o.file}:{o.line} {o.msg[:140]}"))
+                res.append((rp, kind, rid, f"[variant {i}] {o.file}:{o.line} {o.msg[:140]}"))
     return res
 
 
 if __name__ == "__main__":
+    if os.environ.get("METAMORPH_SHOW"):
+        print(work(int(os.environ["METAMORPH_SHOW"])))
+        sys.exit(0)
     with mp.get_context("fork").Pool(16) as pool:
         allres = pool.map(work, range(N), chunksize=2)
     applied = sum(1 for r in allres if r is not None)
